@@ -73,7 +73,7 @@ theorem statusDers_mem {s : Settings} {env : Env} {st : Store} {r : Req}
 theorem loadJumbf_mem {s : Settings} {env : Env} {a : Asset} {r : Req}
     (h : r ∈ (loadJumbf s env a).2) :
     ∃ u, r = .manifest u ∧ s.remoteFetch = true ∧ a.embedded = .absent ∧ a.xmp = some u
-      ∧ validRemoteUrl u = true := by
+      ∧ validRef a u = true ∧ a.refUriOk = true := by
   unfold loadJumbf at h
   split at h
   · simp at h
@@ -86,7 +86,10 @@ theorem loadJumbf_mem {s : Settings} {env : Env} {a : Asset} {r : Req}
       · rename_i hv
         split at h
         · rename_i hf
-          split at h <;> (simp at h; exact ⟨u, h, hf, hemb, hx, hv⟩)
+          split at h
+          · rename_i hq
+            split at h <;> (simp at h; exact ⟨u, h, hf, hemb, hx, hv, hq⟩)
+          · simp at h
         · simp at h
       · simp at h
 
@@ -102,9 +105,19 @@ theorem loadJumbf_trace (s : Settings) (env : Env) (a : Asset) :
     · rename_i u hx
       split
       · split
-        · split <;> simp [hx]
+        · split
+          · split <;> simp [hx]
+          · simp
         · simp
       · simp
+
+/-- a predicate that keeps manifest requests keeps the whole trace of `loadJumbf` -/
+theorem loadJumbf_trace_filter (s : Settings) (env : Env) (a : Asset) (p : Req → Bool)
+    (hp : ∀ u, p (.manifest u) = true) :
+    (loadJumbf s env a).2.filter p = (loadJumbf s env a).2 := by
+  rcases loadJumbf_trace s env a with h | ⟨u, h, _⟩
+  · rw [h]; rfl
+  · rw [h]; simp [hp u]
 
 /-! ### the property: every request is asked for -/
 
@@ -318,19 +331,22 @@ theorem no_request_when_nothing_enabled (s : Settings) (env : Env) (sg : Signer)
 /-- `http://h/m` -/
 def urlEx : Url := ['h', 't', 't', 'p', ':', '/', '/', 'h', '/', 'm']
 
-example : ∃ (s : Settings) (env : Env) (sg : Signer) (as : List (Asset × Bool × Bool)) (a : Asset),
-    (s.remoteFetch = false ∧ s.ocspFetch = false ∧ sg.tsa = false ∧ s.decodeIdentity = false
-    ∧ a.xmp = some urlEx ∧ as ≠ [] ∧ (s.statusFetch = .none ∨ s.statusOverride = none)) ∧ env = env :=
-  ⟨⟨false, false, .all, none, true, true, .all, true, false⟩, ⟨.ok, .ok, .ok⟩, ⟨false, 2, false, false, 0⟩,
-    [(⟨.absent, some urlEx, [⟨1, false, false, 0, false, false, false, 3⟩]⟩, true, true)],
-    ⟨.absent, some urlEx, []⟩, ⟨rfl, rfl, rfl, rfl, rfl, by simp, Or.inr rfl⟩, rfl⟩
+/-- non-vacuity: the hypotheses hold for a remote-only asset and a remote-only ingredient whose
+claims name OCSP responders and did:web issuers, with the time-stamp assertion settings on -/
+example :
+    (read ⟨false, false, .all, none, true, true, .all, true, false⟩ ⟨.ok, .ok, .ok⟩
+        ⟨.absent, some urlEx, [], true, true⟩).trace = []
+      ∧ (importAndSign ⟨false, false, .all, none, true, true, .all, true, false⟩ ⟨.ok, .ok, .ok⟩
+          ⟨false, 2, false, false, 0, true⟩
+          [(⟨.absent, some urlEx, [⟨1, false, false, 0, false, false, false, 3⟩], true, true⟩, true, true)]).2.trace = [] :=
+  no_request_when_nothing_enabled _ _ _ _ _ rfl rfl (Or.inr rfl) rfl rfl
 
 /-! ### remote manifests -/
 
 /-- **Remote-only asset, fetching disabled: the error is `RemoteManifestUrl` and carries exactly
 the referenced URL; nothing is requested.** -/
 theorem remote_only_disabled_error_has_url (s : Settings) (env : Env) (a : Asset) (u : Url)
-    (he : a.embedded = .absent) (hx : a.xmp = some u) (hv : validRemoteUrl u = true)
+    (he : a.embedded = .absent) (hx : a.xmp = some u) (hv : validRef a u = true)
     (hf : s.remoteFetch = false) :
     read s env a = ⟨.error (.remoteManifestUrl u), []⟩ := by
   simp [read, loadJumbf, he, hx, hv, hf]
@@ -338,15 +354,64 @@ theorem remote_only_disabled_error_has_url (s : Settings) (env : Env) (a : Asset
 /-- The same asset imported as an ingredient: `manifest.inaccessible` with that URL, no request. -/
 theorem remote_only_disabled_ingredient_has_url (s : Settings) (env : Env) (a : Asset) (u : Url)
     (p e : Bool) (he : a.embedded = .absent) (hx : a.xmp = some u)
-    (hv : validRemoteUrl u = true) (hf : s.remoteFetch = false) :
+    (hv : validRef a u = true) (hf : s.remoteFetch = false) :
     importIng s env a p e = (⟨.inaccessible (some u), p, e⟩, []) := by
   simp [importIng, loadJumbf, he, hx, hv, hf]
 
-example : validRemoteUrl urlEx = true := by decide
-example : validRemoteUrl ['H', 'T', 'T', 'P', 's', ':', '/', '/', 'h'] = true := by decide
-example : validRemoteUrl ['f', 't', 'p', ':', '/', '/', 'h', '/', 'm'] = false := by decide
-example : validRemoteUrl ['m', '/', 'x', '.', 'c', '2', 'p', 'a'] = false := by decide
-example : validRemoteUrl ['h', 't', 't', 'p', ':', '/', '/'] = false := by decide
+/-- the bytes of a string literal -/
+def ul (s : String) : Url := s.toList
+
+example : classify urlEx = .valid := by decide
+example : classify (ul "HTTPs://h") = .valid := by decide
+example : classify (ul "ftp://h/m") = .invalid := by decide
+example : classify (ul "m/x.c2pa") = .invalid := by decide
+example : classify (ul "http://") = .invalid := by decide
+-- forms `url::Url::parse` accepts although they do not look like `scheme://host/path`
+example : classify (ul "http:/h/m") = .valid := by decide
+example : classify (ul "http:h") = .valid := by decide
+example : classify (ul " \thttp://h/m\n ") = .valid := by decide
+example : classify (ul "ht\ttp:/\n/h/\rm") = .valid := by decide
+example : classify (ul "http:\\\\h\\m") = .valid := by decide
+example : classify (ul "http://u:p@h:00080/m") = .valid := by decide
+example : classify (ul "http://0x7f.1/m") = .valid := by decide
+-- and forms it rejects
+example : classify (ul "http://h:65536/") = .invalid := by decide
+example : classify (ul "http://a.1/") = .invalid := by decide
+example : classify (ul "http://a b/") = .invalid := by decide
+example : classify (ul "http://@/m") = .invalid := by decide
+example : classify (ul "1http://h") = .invalid := by decide
+-- left to the `url` crate (oracle input `refUrlCrate`)
+example : classify (ul "http://[::1]/m") = .exoticHost := by decide
+example : classify (ul "http://a%41/") = .exoticHost := by decide
+
+/-- **Whatever the oracle input says, a reference that is accepted has scheme `http` or `https`
+(compared case-insensitively, after the trimming and tab/newline removal of the WHATWG parser)
+and a non-empty host-and-port.** In particular a relative reference, `ftp:`, `file:` … is never
+fetched and never reported as `RemoteManifestUrl`. -/
+theorem valid_ref_has_http_scheme (a : Asset) (u : Url) (h : validRef a u = true) :
+    ∃ s rest, splitScheme (cleaned u) = some (s, rest) ∧ (s = httpS ∨ s = httpsS)
+      ∧ hostPort rest ≠ [] := by
+  unfold validRef at h
+  cases hs : splitScheme (cleaned u) with
+  | none => simp [classify, hs] at h
+  | some p =>
+    obtain ⟨s, rest⟩ := p
+    refine ⟨s, rest, rfl, ?_⟩
+    by_cases h1 : s = httpS
+    · refine ⟨Or.inl h1, ?_⟩
+      intro hnil
+      simp [classify, hs, h1, hnil] at h
+    · by_cases h2 : s = httpsS
+      · refine ⟨Or.inr h2, ?_⟩
+        intro hnil
+        simp [classify, hs, h2, hnil] at h
+      · simp [classify, hs, h1, h2] at h
+
+/-- the oracle input is consulted for exotic hosts only -/
+theorem valid_ref_oracle_free (a b : Asset) (u : Url) (h : classify u ≠ .exoticHost) :
+    validRef a u = validRef b u := by
+  unfold validRef
+  cases hc : classify u <;> simp_all
 
 /-- **An embedded manifest is preferred: with one present (or present but unreadable) no remote
 manifest is requested**, whatever the XMP reference and the settings say. -/
@@ -372,7 +437,8 @@ theorem embedded_preferred (s : Settings) (env : Env) (a : Asset) (p e : Bool)
 /-- Exactly when a remote manifest is requested while reading, and for which URL. -/
 theorem manifest_request_iff (s : Settings) (env : Env) (a : Asset) (u : Url) :
     Req.manifest u ∈ (read s env a).trace ↔
-      a.embedded = .absent ∧ a.xmp = some u ∧ validRemoteUrl u = true ∧ s.remoteFetch = true := by
+      a.embedded = .absent ∧ a.xmp = some u ∧ validRef a u = true ∧ s.remoteFetch = true
+        ∧ a.refUriOk = true := by
   constructor
   · intro hm
     have : Req.manifest u ∈ (loadJumbf s env a).2 := by
@@ -380,11 +446,19 @@ theorem manifest_request_iff (s : Settings) (env : Env) (a : Asset) (u : Url) :
       · exact hm
       · cases hm
       · cases hm
-    obtain ⟨u', hu, hf, he, hx, hv⟩ := loadJumbf_mem this
+    obtain ⟨u', hu, hf, he, hx, hv, hq⟩ := loadJumbf_mem this
     cases hu
-    exact ⟨he, hx, hv, hf⟩
-  · rintro ⟨he, hx, hv, hf⟩
-    cases hm : env.manifest <;> simp [read, loadJumbf, he, hx, hv, hf, hm]
+    exact ⟨he, hx, hv, hf, hq⟩
+  · rintro ⟨he, hx, hv, hf, hq⟩
+    cases hm : env.manifest <;> simp [read, loadJumbf, he, hx, hv, hf, hq, hm]
+
+/-- A reference `http::Request::get` refuses is never requested: reading fails with `HttpError`
+(when fetching is enabled) without any request. -/
+theorem unbuildable_request_not_sent (s : Settings) (env : Env) (a : Asset) (u : Url)
+    (he : a.embedded = .absent) (hx : a.xmp = some u) (hv : validRef a u = true)
+    (hf : s.remoteFetch = true) (hq : a.refUriOk = false) :
+    read s env a = ⟨.error .httpRequest, []⟩ := by
+  simp [read, loadJumbf, he, hx, hv, hf, hq]
 
 /-- At most one remote manifest request per read, and it comes first. -/
 theorem read_trace_shape (s : Settings) (env : Env) (a : Asset) :
@@ -477,15 +551,20 @@ theorem no_tsa_url_no_timestamp_request (s : Settings) (env : Env) (sg : Signer)
   constructor <;> intro hm <;>
     (have := request_implies_enabled.2 s env sg as _ hm; simp [enabled, h] at this)
 
-/-- The only request that does not use the resolver of the caller's `Context` is the signer's
-own time-stamp request, and there is at most one per signing. -/
+/-- **Every request of a signing goes through the resolver of the caller's `Context`, except the
+signer's own time-stamp request, which is issued only when the signer names a TSA**; and there is
+at most one such request per signing. -/
 theorem only_signer_timestamp_leaves_context (s : Settings) (env : Env) (sg : Signer)
     (ings : List Ing) :
-    (∀ r ∈ (signFlow s env sg ings).trace, r.channel = .fresh → r = .tsaSigner)
+    (∀ r ∈ (signFlow s env sg ings).trace,
+        r.channel = .context ∨ (r = .tsaSigner ∧ sg.tsa = true))
       ∧ ((signFlow s env sg ings).trace.filter (· == .tsaSigner)).length ≤ 1 := by
   constructor
-  · intro r _ hc
-    cases r <;> simp [Req.channel] at hc ⊢
+  · intro r hr
+    rcases signFlow_mem hr with ⟨h, _⟩ | h | ⟨h, _⟩
+    · left; rw [h]; rfl
+    · right; exact h
+    · left; rw [h]; rfl
   · have hts : (tsPhase s sg ings).filter (· == Req.tsaSigner) = [] := by
       apply List.filter_eq_nil_iff.mpr
       intro r hr
@@ -509,6 +588,33 @@ theorem only_signer_timestamp_leaves_context (s : Settings) (env : Env) (sg : Si
         · rw [List.filter_append, hts]; simp
         · rw [List.filter_append, List.filter_append, hts, hvs]; simpa using hsg
 
+/-- Reading and importing ingredients use the resolver of the caller's `Context` for every
+request. -/
+theorem read_and_import_stay_in_context (s : Settings) (env : Env) (a : Asset) (p e : Bool) :
+    (∀ r ∈ (read s env a).trace, r.channel = .context)
+      ∧ (∀ r ∈ (importIng s env a p e).2, r.channel = .context) := by
+  constructor
+  · intro r hr
+    rcases read_mem hr with h | ⟨h, _⟩ | ⟨h, _⟩
+    · obtain ⟨u, hu, _⟩ := loadJumbf_mem h
+      rw [hu]; rfl
+    · rw [h]; rfl
+    · rw [h]; rfl
+  · intro r hr
+    rcases importIng_mem hr with h | ⟨h, _⟩ | ⟨h, _⟩
+    · obtain ⟨u, hu, _⟩ := loadJumbf_mem h
+      rw [hu]; rfl
+    · rw [h]; rfl
+    · rw [h]; rfl
+
+/-- `cawg_x509_signer.local.tsa_url` has no influence on any request or result of signing
+(`CawgX509IdentitySigner::from_settings` discards it). The statement is about a field the
+decision functions do not read; its content is the differential run, which drives the real
+settings-based signer with that URL set and unset. -/
+theorem cawg_tsa_url_irrelevant (s : Settings) (env : Env) (sg : Signer)
+    (as : List (Asset × Bool × Bool)) (b : Bool) :
+    importAndSign s env { sg with cawgTsa := b } as = importAndSign s env sg as := rfl
+
 /-! ### the inventory of request sites, regenerated from sdk/src -/
 
 /-- **Every place of sdk/src that reaches an HTTP transport is one of the reviewed sites; every
@@ -523,34 +629,511 @@ theorem call_site_inventory_closed :
   decide +kernel
 
 /-- Every request kind of the model is issued by a site that exists in the source, and every
-inventoried site that the modelled operations can reach (remote manifest, OCSP, time stamp) is
-the issuing site of a modelled request kind. -/
+inventoried site is either of a kind no modelled operation reaches (`unmodelledKinds`: the remote
+signer, the construction of the default transports) or the issuing site of some request kind of
+the model (so a site of a new kind cannot be reviewed into `reviewedSinks` without a request kind
+that accounts for it). -/
 theorem model_requests_match_sites :
     (∀ k : ReqKind, Gen.sinkSites.any (fun x => siteKind? x.1 x.2.1 == some (SiteKind.of k)) = true)
       ∧ (Gen.sinkSites.all (fun x =>
           match siteKind? x.1 x.2.1 with
-          | some .remoteManifest => SiteKind.of .manifest == .remoteManifest
-          | some .ocsp => SiteKind.of .ocspVerify == .ocsp && SiteKind.of .ocspStatus == .ocsp
-          | some .timeStamp => SiteKind.of .tsaAssertion == .timeStamp && SiteKind.of .tsaSigner == .timeStamp
-          | some _ => true      -- identity validator / remote signer / default transport: explicit
-          | none => false)) = true := by
-  constructor
+          | some kd => unmodelledKinds.contains kd || allReqKinds.any (fun k => SiteKind.of k == kd)
+          | none => false)) = true
+      ∧ (∀ k : ReqKind, k ∈ allReqKinds) := by
+  refine ⟨?_, ?_, ?_⟩
   · intro k; cases k <;> decide +kernel
   · decide +kernel
+  · intro k; cases k <;> decide
+
+/-- **The places that decide the OCSP fetch policy or hand a time-stamp request to the signer
+are exactly the reviewed ones** (regenerated from sdk/src on every run): a new caller of
+`check_ocsp_status`, a new use of `OcspFetchPolicy::FetchAllowed`, a new caller of
+`send_timestamp_request` / `send_time_stamp_request` changes this obligation. -/
+theorem policy_sites_closed :
+    (Gen.policySites.all (fun x => reviewedPolicySites.contains x)) = true
+      ∧ (reviewedPolicySites.all (fun x => Gen.policySites.contains x)) = true := by
+  decide +kernel
+
+/-- `OcspFetchPolicy::FetchAllowed` is named only inside `crypto/cose/ocsp.rs::check_ocsp_status`
+(the `match` on the policy) and in `claim.rs::check_ocsp_status`, where the guard
+`claim::check_ocsp_status:policy-from-ocsp_fetch` shows it is chosen by `verify.ocsp_fetch`; and
+the callers of the policy-taking function outside crypto/cose go through that wrapper. -/
+theorem fetch_allowed_sites_closed :
+    (Gen.policySites.all (fun x =>
+        x.1 != "OcspFetchPolicy::FetchAllowed"
+          || x.2 == ("crypto/cose/ocsp.rs", "check_ocsp_status")
+          || x.2 == ("claim.rs", "check_ocsp_status"))) = true
+      ∧ Gen.guards.contains ("claim::check_ocsp_status:policy-from-ocsp_fetch", true) = true
+      ∧ Gen.guards.contains ("store.rs:check_ocsp_status-is-the-claim-level-wrapper", true) = true := by
+  decide +kernel
+
+/-- **The trait-default `send_time_stamp_request` (a request on a fresh `Context::new()`,
+crypto/time_stamp/provider.rs) is unreachable with a service URL inside the SDK**: every
+`impl (Async)TimeStampProvider` is a reviewed one, and each implementor that names a service URL
+(`time_stamp_service_url`) also replaces `send_time_stamp_request`. In particular the CAWG X.509
+identity signature (`RawSignerCoseSigner`) never requests a time stamp. -/
+theorem ts_provider_default_unreachable :
+    (Gen.tsProviders.all (fun x => reviewedTsProviders.contains x)) = true
+      ∧ (Gen.tsProviders.all (fun x =>
+          !x.2.2.contains "time_stamp_service_url" || x.2.2.contains "send_time_stamp_request")) = true
+      ∧ Gen.tsProviders.contains ("crypto/cose/cose_signer.rs", "RawSignerCoseSigner", []) = true := by
+  decide +kernel
 
 /-! ### non-vacuity: with the settings on, the requests do occur -/
 
 def sOn : Settings := ⟨true, true, .all, some false, true, true, .all, true, true⟩
 def envNf : Env := ⟨.ok, .notFound, .ok⟩
-def remOnly : Asset := ⟨.absent, some urlEx, [⟨2, false, false, 1, false, false, false, 1⟩]⟩
+def remOnly : Asset := ⟨.absent, some urlEx, [⟨2, false, false, 1, false, false, false, 1⟩], true, true⟩
 
 example : (read sOn envNf remOnly).trace = [.manifest urlEx, .ocspVerify, .ocspVerify, .didWeb] := by
   decide
-example : (importAndSign sOn envNf ⟨true, 1, false, false, 0⟩ [(remOnly, true, false)]).2.trace
+example : (importAndSign sOn envNf ⟨true, 1, false, false, 0, false⟩ [(remOnly, true, false)]).2.trace
     = [.manifest urlEx, .ocspVerify, .ocspVerify, .ocspStatus, .ocspStatus,
        .tsaAssertion, .tsaSigner, .ocspVerify, .ocspVerify, .ocspVerify] := by
   decide
 example : read { sOn with remoteFetch := false } envNf remOnly
     = ⟨.error (.remoteManifestUrl urlEx), []⟩ := by decide
+
+example : read { sOn with remoteFetch := true } envNf { remOnly with refUriOk := false }
+    = ⟨.error .httpRequest, []⟩ := by decide
+
+/-! ### gate independence: a setting influences only its own kind of request -/
+
+theorem checkOcsp_off (s : Settings) (env : Env) (st : Store) (c : Claim) :
+    checkOcsp { s with ocspFetch := false } env st c = [] := by
+  simp [checkOcsp]
+
+theorem verifyStore_off (s : Settings) (env : Env) (st : Store) :
+    verifyStore { s with ocspFetch := false } env st = [] := by
+  unfold verifyStore
+  apply List.flatMap_eq_nil_iff.mpr
+  intro c _
+  exact checkOcsp_off s env st c
+
+theorem verifyStore_filter_ocsp (s : Settings) (env : Env) (st : Store) :
+    (verifyStore s env st).filter (· != .ocspVerify) = [] := by
+  apply List.filter_eq_nil_iff.mpr
+  intro r hr
+  rw [(verifyStore_mem hr).1]; decide
+
+theorem identityReqs_filter_ocsp (s : Settings) (st : Store) :
+    (identityReqs s st).filter (· != .ocspVerify) = identityReqs s st := by
+  apply List.filter_eq_self.mpr
+  intro r hr
+  rw [(identityReqs_mem hr).1]; decide
+
+/-- **Switching `verify.ocsp_fetch` off removes exactly the OCSP requests of a read** and changes
+nothing else: not the result, not the other requests, not their order. (Reviewer d.1, as
+suggested.) -/
+theorem ocsp_gate_independent (s : Settings) (env : Env) (a : Asset) :
+    (read { s with ocspFetch := false } env a).trace
+        = (read s env a).trace.filter (· != .ocspVerify)
+      ∧ (read { s with ocspFetch := false } env a).result = (read s env a).result := by
+  have hl : loadJumbf { s with ocspFetch := false } env a = loadJumbf s env a := rfl
+  have hi : ∀ st, identityReqs { s with ocspFetch := false } st = identityReqs s st := fun _ => rfl
+  have hf := loadJumbf_trace_filter s env a (· != .ocspVerify) (fun _ => by simp)
+  cases h : loadJumbf s env a with
+  | mk res t =>
+    rw [h] at hf
+    cases res with
+    | error e => simp only [read, hl, h]; exact ⟨hf.symm, trivial⟩
+    | ok st =>
+      simp only [read, hl, h, hi, verifyStore_off, List.append_nil, List.filter_append,
+        verifyStore_filter_ocsp, identityReqs_filter_ocsp]
+      exact ⟨by rw [show List.filter (fun x => x != Req.ocspVerify) t = t from hf], trivial⟩
+
+theorem identityReqs_off (s : Settings) (st : Store) :
+    identityReqs { s with decodeIdentity := false } st = [] := by
+  simp [identityReqs]
+
+theorem identityReqs_filter_did (s : Settings) (st : Store) :
+    (identityReqs s st).filter (· != .didWeb) = [] := by
+  apply List.filter_eq_nil_iff.mpr
+  intro r hr
+  rw [(identityReqs_mem hr).1]; decide
+
+theorem verifyStore_filter_did (s : Settings) (env : Env) (st : Store) :
+    (verifyStore s env st).filter (· != .didWeb) = verifyStore s env st := by
+  apply List.filter_eq_self.mpr
+  intro r hr
+  rw [(verifyStore_mem hr).1]; decide
+
+/-- **Switching `core.decode_identity_assertions` off removes exactly the did:web resolutions of
+a read** and changes nothing else. -/
+theorem identity_gate_independent (s : Settings) (env : Env) (a : Asset) :
+    (read { s with decodeIdentity := false } env a).trace
+        = (read s env a).trace.filter (· != .didWeb)
+      ∧ (read { s with decodeIdentity := false } env a).result = (read s env a).result := by
+  have hl : loadJumbf { s with decodeIdentity := false } env a = loadJumbf s env a := rfl
+  have hv : ∀ st, verifyStore { s with decodeIdentity := false } env st = verifyStore s env st :=
+    fun _ => rfl
+  have hf := loadJumbf_trace_filter s env a (· != .didWeb) (fun _ => by simp)
+  cases h : loadJumbf s env a with
+  | mk res t =>
+    rw [h] at hf
+    cases res with
+    | error e => simp only [read, hl, h]; exact ⟨hf.symm, trivial⟩
+    | ok st =>
+      simp only [read, hl, h, hv, identityReqs_off, List.append_nil, List.filter_append,
+        identityReqs_filter_did, verifyStore_filter_did]
+      exact ⟨by rw [show List.filter (fun x => x != Req.didWeb) t = t from hf], trivial⟩
+
+/-- **`verify.remote_manifest_fetch` matters only for an asset without embedded manifest.**
+The reviewer's form (`trace.filter (· is not a manifest request)`) is *not* provable and not true
+of the code: with fetching off a remote-only asset is not loaded at all, so the OCSP and did:web
+requests that validating the fetched store would cause disappear together with the manifest
+request. What holds: with an embedded manifest (readable or not) the setting changes nothing at
+all; without one, switching it off leaves no request of any kind. -/
+theorem remote_gate_independent (s : Settings) (env : Env) (a : Asset) (b : Bool) :
+    (a.embedded ≠ .absent → read { s with remoteFetch := b } env a = read s env a)
+      ∧ (a.embedded = .absent → (read { s with remoteFetch := false } env a).trace = []) := by
+  constructor
+  · intro he
+    have hl : loadJumbf { s with remoteFetch := b } env a = loadJumbf s env a := by
+      unfold loadJumbf
+      cases hemb : a.embedded with
+      | absent => exact absurd hemb he
+      | store st => rfl
+      | broken => rfl
+    have hv : ∀ st, verifyStore { s with remoteFetch := b } env st = verifyStore s env st :=
+      fun _ => rfl
+    have hi : ∀ st, identityReqs { s with remoteFetch := b } st = identityReqs s st := fun _ => rfl
+    simp only [read, hl, hv, hi]
+  · intro he
+    apply List.eq_nil_iff_forall_not_mem.mpr
+    intro r hr
+    rcases read_mem hr with h | ⟨_, _⟩ | ⟨_, _⟩
+    · obtain ⟨_, _, hf, _⟩ := loadJumbf_mem h
+      cases hf
+    all_goals
+      (unfold read at hr
+       have hnone : ∀ st t, loadJumbf { s with remoteFetch := false } env a ≠ (.ok st, t) := by
+         intro st t
+         unfold loadJumbf
+         rw [he]
+         cases a.xmp with
+         | none => simp
+         | some u => by_cases hv : validRef a u = true <;> simp [hv]
+       split at hr
+       · rename_i e t heq
+         have := loadJumbf_trace { s with remoteFetch := false } env a
+         rw [heq] at this
+         rcases this with h0 | ⟨u, h0, _⟩
+         · simp only at h0; rw [h0] at hr; cases hr
+         · simp only at h0
+           have hm : Req.manifest u ∈ (loadJumbf { s with remoteFetch := false } env a).2 := by
+             rw [heq]; simp [h0]
+           obtain ⟨_, _, hf, _⟩ := loadJumbf_mem hm
+           cases hf
+       · rename_i st t heq
+         exact absurd heq (hnone st t))
+
+theorem tsSelected_congr (s s' : Settings) (seen : Bool) (i : Ing)
+    (h1 : s.tsScope = s'.tsScope) (h2 : s.tsSkipExisting = s'.tsSkipExisting) :
+    tsSelected s seen i = tsSelected s' seen i := by
+  unfold tsSelected
+  rw [h1, h2]
+
+theorem tsClaims_congr (s s' : Settings)
+    (h1 : s.tsScope = s'.tsScope) (h2 : s.tsSkipExisting = s'.tsSkipExisting) :
+    ∀ (seen : Bool) (ings : List Ing), tsClaims s seen ings = tsClaims s' seen ings
+  | _, [] => rfl
+  | seen, i :: is => by
+    simp only [tsClaims]
+    rw [tsSelected_congr s s' seen i h1 h2, tsClaims_congr s s' h1 h2 (seen || i.parent) is]
+
+theorem tsPhase_ocsp_off (s : Settings) (sg : Signer) (ings : List Ing) :
+    tsPhase { s with ocspFetch := false } sg ings = tsPhase s sg ings := by
+  unfold tsPhase timestampReqs
+  rw [tsClaims_congr { s with ocspFetch := false } s rfl rfl]
+
+theorem tsPhase_filter_ocsp (s : Settings) (sg : Signer) (ings : List Ing) (n : Nat) :
+    ((tsPhase s sg ings).take n).filter (· != .ocspVerify) = (tsPhase s sg ings).take n := by
+  apply List.filter_eq_self.mpr
+  intro r hr
+  rw [(tsPhase_mem (List.mem_of_mem_take hr)).1]; decide
+
+/-- **Switching `verify.ocsp_fetch` off removes exactly the OCSP requests of a signing** (those
+of `verify_after_sign`) and changes neither the result nor the time-stamp requests. -/
+theorem ocsp_gate_independent_sign (s : Settings) (env : Env) (sg : Signer) (ings : List Ing) :
+    (signFlow { s with ocspFetch := false } env sg ings).trace
+        = (signFlow s env sg ings).trace.filter (· != .ocspVerify)
+      ∧ (signFlow { s with ocspFetch := false } env sg ings).result
+        = (signFlow s env sg ings).result := by
+  have hp := tsPhase_ocsp_off s sg ings
+  have hk : ∀ n, ((tsPhase s sg ings).take n).filter (· != .ocspVerify) = (tsPhase s sg ings).take n :=
+    tsPhase_filter_ocsp s sg ings
+  have hk' : (tsPhase s sg ings).filter (· != .ocspVerify) = tsPhase s sg ings := by
+    have := hk (tsPhase s sg ings).length
+    rwa [List.take_length] at this
+  have ha : afterSign { s with ocspFetch := false } env sg ings = [] := by
+    unfold afterSign
+    split
+    · exact verifyStore_off s env _
+    · rfl
+  have hb : (afterSign s env sg ings).filter (· != .ocspVerify) = [] := by
+    apply List.filter_eq_nil_iff.mpr
+    intro r hr
+    rw [(afterSign_mem hr).1]; decide
+  have hs : (signerTs sg).filter (· != .ocspVerify) = signerTs sg := by
+    unfold signerTs; cases sg.tsa <;> decide
+  unfold signFlow
+  rw [hp, ha]
+  split
+  · exact ⟨rfl, rfl⟩
+  · split
+    · exact ⟨(hk 1).symm, rfl⟩
+    · split
+      · refine ⟨?_, rfl⟩
+        rw [List.filter_append, hk']; rfl
+      · refine ⟨?_, rfl⟩
+        rw [List.filter_append, List.filter_append, hk', hs, hb]
+
+/-- **Without a TSA URL on the signer exactly the two kinds of time-stamp request disappear**,
+provided the TSA answers. (Without that proviso the statement is false for model and code alike:
+a TSA that fails aborts the signing, so the OCSP requests of `verify_after_sign` that follow a
+successful signing are absent from the run with a TSA URL.) -/
+theorem tsa_gate_independent (s : Settings) (env : Env) (sg : Signer) (ings : List Ing)
+    (hok : env.tsa = .ok) :
+    (signFlow s env { sg with tsa := false } ings).trace
+      = (signFlow s env sg ings).trace.filter (fun r => r != .tsaAssertion && r != .tsaSigner) := by
+  have hc : ({ sg with tsa := false } : Signer).claim = sg.claim := rfl
+  have ha : afterSign s env { sg with tsa := false } ings = afterSign s env sg ings := by
+    unfold afterSign; rw [hc]
+  have hfa : (afterSign s env sg ings).filter (fun r => r != .tsaAssertion && r != .tsaSigner)
+      = afterSign s env sg ings := by
+    apply List.filter_eq_self.mpr
+    intro r hr
+    rw [(afterSign_mem hr).1]; decide
+  have hfp : (tsPhase s sg ings).filter (fun r => r != .tsaAssertion && r != .tsaSigner) = [] := by
+    apply List.filter_eq_nil_iff.mpr
+    intro r hr
+    rw [(tsPhase_mem hr).1]; decide
+  have hfs : (signerTs sg).filter (fun r => r != .tsaAssertion && r != .tsaSigner) = [] := by
+    unfold signerTs; cases sg.tsa <;> decide
+  have hp0 : tsPhase s { sg with tsa := false } ings = [] := by simp [tsPhase]
+  unfold signFlow
+  rw [hp0, ha]
+  simp only [hok, bne_self_eq_false, Bool.and_false, Bool.false_eq_true, if_false, signerTs,
+    List.isEmpty_nil, Bool.not_true, List.nil_append]
+  split
+  · rfl
+  · rw [← show signerTs sg = (if sg.tsa = true then [Req.tsaSigner] else []) from rfl,
+      List.filter_append, List.filter_append, hfp, hfs, hfa]; rfl
+
+/-! ### converse statements: exactly when each kind of request occurs -/
+
+theorem fetchOcsp_mem_iff (env : Env) (k : Req) (c : Claim) :
+    k ∈ fetchOcsp env k c ↔ c.responders ≠ 0 := by
+  unfold fetchOcsp
+  split
+  · simp [List.mem_replicate]
+  · split <;> simp [*]
+
+/-- **Exactly when validating a claim queries an OCSP responder**: fetching is on, the
+certificate names a responder, no usable stapled response, no overriding certificate-status
+response. -/
+theorem ocsp_check_iff (s : Settings) (env : Env) (st : Store) (c : Claim) :
+    Req.ocspVerify ∈ checkOcsp s env st c ↔
+      s.ocspFetch = true ∧ c.responders ≠ 0 ∧ (c.stapled && c.stapledUsable) = false
+        ∧ (s.statusOverride.getD false && statusResp st c) = false := by
+  unfold checkOcsp
+  split
+  · rename_i h1; simp [h1]
+  · rename_i h1
+    split
+    · rename_i h2; simp [h2]
+    · rename_i h2
+      split
+      · rename_i h3
+        rw [fetchOcsp_mem_iff]
+        simp only [Bool.not_eq_true] at h1 h2
+        simp [h1, h2, h3]
+      · rename_i h3; simp [h3]
+
+def ocspCond (s : Settings) (st : Store) (c : Claim) : Prop :=
+  s.ocspFetch = true ∧ c.responders ≠ 0 ∧ (c.stapled && c.stapledUsable) = false
+    ∧ (s.statusOverride.getD false && statusResp st c) = false
+
+theorem loadJumbf_no_other {s : Settings} {env : Env} {a : Asset} {r : Req}
+    (h : r ∈ (loadJumbf s env a).2) : r ≠ .ocspVerify ∧ r ≠ .didWeb := by
+  obtain ⟨u, hu, _⟩ := loadJumbf_mem h
+  rw [hu]; exact ⟨by simp, by simp⟩
+
+/-- **Exactly when a read queries an OCSP responder**: a manifest store is loaded (embedded, or
+fetched) and one of its claims meets the conditions of `ocsp_check_iff`. -/
+theorem ocsp_request_iff (s : Settings) (env : Env) (a : Asset) :
+    Req.ocspVerify ∈ (read s env a).trace ↔
+      ∃ st, (loadJumbf s env a).1 = .ok st ∧ ∃ c ∈ st, ocspCond s st c := by
+  cases h : loadJumbf s env a with
+  | mk res t =>
+    have hno : ∀ r ∈ t, r ≠ .ocspVerify ∧ r ≠ .didWeb := by
+      intro r hr
+      exact loadJumbf_no_other (s := s) (env := env) (a := a) (by rw [h]; exact hr)
+    cases res with
+    | error e =>
+      simp only [read, h]
+      constructor
+      · intro hm; exact absurd rfl (hno _ hm).1
+      · rintro ⟨st, hst, _⟩; cases hst
+    | ok st =>
+      simp only [read, h, List.mem_append]
+      constructor
+      · rintro ((hm | hm) | hm)
+        · exact absurd rfl (hno _ hm).1
+        · unfold verifyStore at hm
+          obtain ⟨c, hc, hr⟩ := List.mem_flatMap.mp hm
+          exact ⟨st, rfl, c, hc, (ocsp_check_iff s env st c).mp hr⟩
+        · cases (identityReqs_mem hm).1
+      · rintro ⟨st', hst, c, hc, hcond⟩
+        cases hst
+        left; right
+        unfold verifyStore
+        exact List.mem_flatMap.mpr ⟨c, hc, (ocsp_check_iff s env st c).mpr hcond⟩
+
+/-- **Exactly when a read resolves a did:web document**: identity decoding is on, a manifest
+store is loaded and one of its claims carries an identity assertion with a did:web issuer. -/
+theorem didweb_request_iff (s : Settings) (env : Env) (a : Asset) :
+    Req.didWeb ∈ (read s env a).trace ↔
+      s.decodeIdentity = true ∧ ∃ st, (loadJumbf s env a).1 = .ok st ∧ ∃ c ∈ st, c.didWeb ≠ 0 := by
+  cases h : loadJumbf s env a with
+  | mk res t =>
+    have hno : ∀ r ∈ t, r ≠ .ocspVerify ∧ r ≠ .didWeb := by
+      intro r hr
+      exact loadJumbf_no_other (s := s) (env := env) (a := a) (by rw [h]; exact hr)
+    cases res with
+    | error e =>
+      simp only [read, h]
+      constructor
+      · intro hm; exact absurd rfl (hno _ hm).2
+      · rintro ⟨_, st, hst, _⟩; cases hst
+    | ok st =>
+      simp only [read, h, List.mem_append]
+      constructor
+      · rintro ((hm | hm) | hm)
+        · exact absurd rfl (hno _ hm).2
+        · cases (verifyStore_mem hm).1
+        · refine ⟨(identityReqs_mem hm).2, st, rfl, ?_⟩
+          unfold identityReqs at hm
+          rw [if_pos (identityReqs_mem hm).2] at hm
+          obtain ⟨c, hc, hr⟩ := List.mem_flatMap.mp hm
+          refine ⟨c, hc, ?_⟩
+          intro h0; rw [h0] at hr; simp at hr
+      · rintro ⟨hd, st', hst, c, hc, hne⟩
+        cases hst
+        right
+        unfold identityReqs
+        rw [if_pos hd]
+        exact List.mem_flatMap.mpr ⟨c, hc, List.mem_replicate.mpr ⟨hne, rfl⟩⟩
+
+/-- **Exactly when the signer's own time-stamp request is sent**: the signer names a TSA, every
+ingredient can be encoded, and no earlier time-stamp assertion request has failed. -/
+theorem tsa_signer_request_iff (s : Settings) (env : Env) (sg : Signer) (ings : List Ing) :
+    Req.tsaSigner ∈ (signFlow s env sg ings).trace ↔
+      sg.tsa = true ∧ anyUnencodable ings = false
+        ∧ (tsPhase s sg ings = [] ∨ env.tsa = .ok) := by
+  have hnp : ∀ n, Req.tsaSigner ∉ (tsPhase s sg ings).take n := by
+    intro n hm
+    cases (tsPhase_mem (List.mem_of_mem_take hm)).1
+  have hnp' : Req.tsaSigner ∉ tsPhase s sg ings := by
+    intro hm; cases (tsPhase_mem hm).1
+  have hna : Req.tsaSigner ∉ afterSign s env sg ings := by
+    intro hm; cases (afterSign_mem hm).1
+  unfold signFlow
+  split
+  · rename_i hu; simp [hu]
+  · rename_i hu
+    simp only [Bool.not_eq_true] at hu
+    split
+    · rename_i h2
+      simp only [Bool.and_eq_true, Bool.not_eq_true', List.isEmpty_eq_false_iff, bne_iff_ne,
+        ne_eq] at h2
+      constructor
+      · intro hm; exact absurd hm (hnp 1)
+      · rintro ⟨_, _, h | h⟩
+        · exact absurd h h2.1
+        · exact absurd h h2.2
+    · rename_i h2
+      have h2' : tsPhase s sg ings = [] ∨ env.tsa = .ok := by
+        cases hp : tsPhase s sg ings with
+        | nil => exact Or.inl rfl
+        | cons x xs =>
+          right
+          cases ht : env.tsa with
+          | ok => rfl
+          | notFound => simp [hp, ht] at h2
+          | transportErr => simp [hp, ht] at h2
+      split
+      · rename_i h3
+        simp only [Bool.and_eq_true] at h3
+        simp [hu, h3.1, h2']
+      · rename_i h3
+        simp only [List.mem_append, hu, true_and]
+        constructor
+        · rintro ((hm | hm) | hm)
+          · exact absurd hm hnp'
+          · exact ⟨(signerTs_mem hm).2, h2'⟩
+          · exact absurd hm hna
+        · rintro ⟨ht, _⟩
+          left; right
+          simp [signerTs, ht]
+
+/-- **Exactly when a time-stamp assertion request is sent while signing**: every ingredient can
+be encoded and `maybe_add_timestamp` selects at least one claim (`tsPhase`, which is empty
+without a TSA URL on the signer: `tsPhase_mem`). -/
+theorem tsa_assertion_request_iff (s : Settings) (env : Env) (sg : Signer) (ings : List Ing) :
+    Req.tsaAssertion ∈ (signFlow s env sg ings).trace ↔
+      anyUnencodable ings = false ∧ tsPhase s sg ings ≠ [] := by
+  have hall : ∀ r ∈ tsPhase s sg ings, r = .tsaAssertion := fun r hr => (tsPhase_mem hr).1
+  have hna : Req.tsaAssertion ∉ afterSign s env sg ings := by
+    intro hm; cases (afterSign_mem hm).1
+  have hns : Req.tsaAssertion ∉ signerTs sg := by
+    intro hm; cases (signerTs_mem hm).1
+  have hmem : Req.tsaAssertion ∈ tsPhase s sg ings ↔ tsPhase s sg ings ≠ [] := by
+    constructor
+    · intro hm hnil; rw [hnil] at hm; cases hm
+    · intro hne
+      cases hp : tsPhase s sg ings with
+      | nil => exact absurd hp hne
+      | cons x xs =>
+        have : x = .tsaAssertion := hall x (by rw [hp]; exact List.mem_cons_self)
+        rw [this]; exact List.mem_cons_self
+  unfold signFlow
+  split
+  · rename_i hu; simp [hu]
+  · rename_i hu
+    simp only [Bool.not_eq_true] at hu
+    split
+    · rename_i h2
+      simp only [Bool.and_eq_true, Bool.not_eq_true', List.isEmpty_eq_false_iff] at h2
+      simp only [hu, true_and]
+      constructor
+      · intro _; exact h2.1
+      · intro _
+        cases hp : tsPhase s sg ings with
+        | nil => exact absurd hp h2.1
+        | cons x xs =>
+          have : x = .tsaAssertion := hall x (by rw [hp]; exact List.mem_cons_self)
+          rw [this]; simp
+    · split
+      · simp only [List.mem_append, hu, true_and, List.mem_singleton]
+        rw [← hmem]
+        constructor
+        · rintro (hm | hm)
+          · exact hm
+          · cases hm
+        · intro hm; exact Or.inl hm
+      · simp only [List.mem_append, hu, true_and]
+        rw [← hmem]
+        constructor
+        · rintro ((hm | hm) | hm)
+          · exact hm
+          · exact absurd hm hns
+          · exact absurd hm hna
+        · intro hm; exact Or.inl (Or.inl hm)
+
+example : ocspCond sOn [⟨2, false, false, 1, false, false, false, 1⟩] ⟨2, false, false, 1, false, false, false, 1⟩ := by
+  unfold ocspCond; decide
+example : Req.tsaSigner ∈ (signFlow sOn envNf ⟨true, 1, false, false, 0, false⟩ []).trace := by decide
 
 end C2pa.C28
